@@ -139,3 +139,10 @@ def ssum_store_last(arr, n, v):
     Lean: ssum_congr instance"""
     USED.add('ssum_congr')
     return [z3.Implies(n >= 0, ssum(z3.Store(arr, n, v), n) == ssum(arr, n))]
+
+
+def dict_ext(dt, a, b):
+    """extensionality of dict terms (a fact of the array/datatype theories, stated to spare the solver the search):
+    equal domains and equal values everywhere => equal dict terms"""
+    k = z3.Const('ext!k', dt.k.sort())
+    return z3.Implies(z3.ForAll([k], z3.And(dt.dom(a)[k] == dt.dom(b)[k], dt.val(a)[k] == dt.val(b)[k])), a == b)
